@@ -30,6 +30,16 @@ Proof. constructor; cbn.
   - intros x c H. unfold getop in H. cbn in H. destruct x; discriminate.
   - intros ? []. Qed.
 
+(* ---------- a companion invariant for the repair of F20 (finish() scrubs only while the stream is Active) ----------
+   a routing entry of a search is a live sender: the item channel of its operation is open; and a stream that has failed (Error) while its
+   entry is still there has its scrub request queued (it failed by timing out) - so finish() need not ask again. Queued searches have an
+   open channel too (the entry made from them must satisfy the first clause). *)
+Definition Chan (s : st) : Prop :=
+  (forall k o c, In (k, o) (smap s) -> getop s o = Some c -> o_chan c = true /\ (o_status c = SError -> In k (scrubq s))) /\
+  (forall o c, In o (opq s) -> getop s o = Some c -> is_search c -> o_chan c = true).
+Lemma Chan_init f : Chan (init f).
+Proof. split; cbn; intros; contradiction. Qed.
+
 (* at quiescence the invariant leaves nothing behind *)
 Theorem Lin_quiescent_clean s : Lin s -> quiescent s = true -> clean s = true.
 Proof.
@@ -187,9 +197,9 @@ Proof.
       | (intros _; now left) | (cbn; discriminate) | (cbn; discriminate) | (cbn; discriminate) | (intros _; exact IS) ].
 Qed.
 
-Lemma Lin_streamfinish s o : Lin s -> is_running s = true -> Lin (step s (StreamFinish o)).
+Lemma Lin_streamfinish s o : Lin s -> Chan s -> is_running s = true -> Lin (step s (StreamFinish o)).
 Proof.
-  intros L Hr. unfold step. destruct (getop s o) as [c|] eqn:Hc; [|exact L].
+  intros L CH Hr. unfold step. destruct (getop s o) as [c|] eqn:Hc; [|exact L].
   destruct (l_stat s L o c Hc) as (_ & _ & S3 & S4).
   assert (Nq : (o_status c = SActive \/ o_status c = SDone \/ o_status c = SError) -> stream_status c -> ~ In o (opq s)).
   { intros E SS Hin. destruct (l_q s L o Hin) as (c' & Hc' & _ & _ & _ & _ & Q & _). rewrite Hc in Hc'. injection Hc' as <-. unfold qstat in Q.
@@ -210,6 +220,13 @@ Proof.
       | (intros Hin; exfalso; destruct (l_s s L _ _ Hin) as (c' & Hc' & _ & _ & _ & ND & _); rewrite Hc in Hc'; injection Hc' as <-; apply ND, S3; reflexivity)
       | (cbn; discriminate) | (cbn; discriminate) | (cbn; discriminate) | (intros _; now apply S4) ].
   - (* Error *)
+    destruct (fix20 (fx s)).
+    { (* repaired (F20): no second scrub; if the routing entry is still there, the scrub sent when next() timed out is still queued *)
+      apply (Lin_client_stream s _ o c (fun c0 => c0 <| o_status := SClosed |> <| o_rx := false |>) L Hc (Nq (or_intror (or_intror eq_refl)) SS) (Nr SS));
+      [ reflexivity | reflexivity | reflexivity | reflexivity | reflexivity | (intros; assumption)
+      | reflexivity | reflexivity | reflexivity | reflexivity
+      | (intros Hin; right; exact (proj2 (proj1 CH _ _ _ Hin Hc) Hst))
+      | (cbn; discriminate) | (cbn; discriminate) | (cbn; discriminate) | (intros _; now apply S4) ]. }
     apply (Lin_client_stream s _ o c (fun c0 => c0 <| o_status := SClosed |> <| o_rx := false |>) L Hc (Nq (or_intror (or_intror eq_refl)) SS) (Nr SS));
       [ reflexivity | reflexivity | reflexivity | reflexivity | reflexivity | (intros x Hx; cbn [scrubq set]; apply in_or_app; now left)
       | reflexivity | reflexivity | reflexivity | reflexivity
@@ -693,9 +710,9 @@ Qed.
 (* ---------- every event preserves the invariant on the repaired model, while the driver runs ---------- *)
 (* [DrvEnd Running] is an artefact of reusing [dstatus] as the event's argument: a driver does not end into the running state *)
 Definition wf_ev (e : ev) : Prop := e <> DrvEnd Running.
-Theorem step_Lin s e : wf_ev e -> keyed s -> Lin s -> fx s = repaired -> is_running (step s e) = true -> NoDup (map o_mid (ops (step s e))) -> Lin (step s e).
+Theorem step_Lin s e : wf_ev e -> keyed s -> Lin s -> Chan s -> fx s = repaired -> is_running (step s e) = true -> NoDup (map o_mid (ops (step s e))) -> Lin (step s e).
 Proof.
-  intros We K L F Hr' Hnd. pose proof (running_back s e Hr') as Hr.
+  intros We K L CH F Hr' Hnd. pose proof (running_back s e Hr') as Hr.
   assert (Hnd0 : NoDup (map o_mid (ops s))) by (eapply oext_mids_nodup; [apply (step_sext s e K)|exact Hnd]).
   destruct e.
   - now apply Lin_start.
@@ -710,16 +727,307 @@ Proof.
   - apply (Lin_same s); try reflexivity. exact L.
 Qed.
 
-Theorem reachable_Lin evs : Forall wf_ev evs -> is_running (run repaired evs) = true -> NoDup (map o_mid (ops (run repaired evs))) -> Lin (run repaired evs).
+(* ---------- the companion invariant is preserved as well ---------- *)
+(* one operation record changes through g, the search map does not grow, the scrub queue does not shrink, the op queue does not grow *)
+Lemma Chan_upd1 s s' o c g : Chan s -> Lin s -> getop s o = Some c ->
+  (forall o', getop s' o' = if Nat.eqb o' o then Some (g c) else getop s o') ->
+  (forall k o', In (k, o') (smap s') -> In (k, o') (smap s)) ->
+  (forall o', In o' (opq s') -> In o' (opq s)) ->
+  (forall x, In x (scrubq s) -> In x (scrubq s')) ->
+  (In (o_mid c, o) (smap s') -> o_chan (g c) = true /\ (o_status (g c) = SError -> In (o_mid c) (scrubq s'))) ->
+  (In o (opq s') -> is_search c -> o_chan (g c) = true) -> (is_search (g c) -> is_search c) ->
+  Chan s'.
 Proof.
-  induction evs as [|e evs IH] using rev_ind; intros Hwf Hr Hnd; [apply Lin_init|].
+  intros [C1 C2] L Hc G Is Iq Isq Hs Hq Hk. split.
+  - intros k o' c' Hin Hg. rewrite G in Hg. destruct (Nat.eqb_spec o' o) as [->|Hne].
+    + injection Hg as <-. destruct (l_s s L k o (Is _ _ Hin)) as (c0 & Hc0 & M & _). rewrite Hc in Hc0. injection Hc0 as <-. subst k. now apply Hs.
+    + destruct (C1 k o' c' (Is _ _ Hin) Hg) as [A B]. split; [exact A|]. intros E. apply Isq. now apply B.
+  - intros o' c' Hin Hg IS. rewrite G in Hg. destruct (Nat.eqb_spec o' o) as [->|Hne].
+    + injection Hg as <-. apply Hq; [assumption|now apply Hk].
+    + exact (C2 o' c' (Iq _ Hin) Hg IS).
+Qed.
+Lemma G_updop s o c g : getop s o = Some c -> forall o', getop (updop o g s) o' = if Nat.eqb o' o then Some (g c) else getop s o'.
+Proof. intros Hc o'. unfold getop, updop. cbn [ops set]. rewrite nth_upd. unfold getop in Hc. destruct (Nat.eqb_spec o' o) as [->|]; [now rewrite Hc|reflexivity]. Qed.
+Lemma Chan_same s s' : Chan s -> ops s' = ops s -> opq s' = opq s -> smap s' = smap s -> scrubq s' = scrubq s -> Chan s'.
+Proof. intros [C1 C2] Eo Eq Es Esq. unfold Chan, getop. rewrite Eo, Eq, Es, Esq. split; assumption. Qed.
+
+Ltac chan_k K Hc := eapply K; [apply (G_updop _ _ _ _ Hc)|..]; try reflexivity; try tauto.
+Lemma Chan_clipoll s o : Lin s -> Chan s -> Chan (step s (CliPoll o)).
+Proof.
+  intros L CH. unfold step. destruct (getop s o) as [c|] eqn:Hc; [|exact CH]. destruct (waiting c) eqn:Hw; cbn [negb]; [|exact CH].
+  assert (Hst : o_status c = CWait) by (unfold waiting in Hw; destruct (o_status c); congruence).
+  destruct (CH) as [C1 C2].
+  assert (K : forall (s' : st) g, (forall o', getop s' o' = if Nat.eqb o' o then Some (g c) else getop s o') -> smap s' = smap s -> opq s' = opq s ->
+     (forall x, In x (scrubq s) -> In x (scrubq s')) -> o_chan (g c) = o_chan c -> o_kind (g c) = o_kind c -> o_status (g c) <> SError -> Chan s').
+  { intros s' g G Es Eq Esq Ech Ek Est. apply (Chan_upd1 s s' o c g CH L Hc G); try (rewrite ?Es, ?Eq; tauto); try assumption.
+    - rewrite Es. intros Hin. rewrite Ech. split; [exact (proj1 (C1 _ _ _ Hin Hc))|]. intros E. now elim Est.
+    - rewrite Eq, Ech. intros Hin IS. exact (C2 _ _ Hin Hc IS).
+    - unfold is_search. now rewrite Ek. }
+  destruct (o_reply c).
+  - destruct (o_deadline c) as [d|]; [|exact CH]. destruct (d <=? now s); [|exact CH].
+    destruct (is_running s); chan_k K Hc.
+    all: try (intros x Hx; cbn [scrubq set updop]; apply in_or_app; now left).
+    all: cbn; destruct (o_kind c); discriminate.
+  - chan_k K Hc. cbn; destruct (o_kind c); discriminate.
+  - chan_k K Hc. cbn; destruct (o_kind c); discriminate.
+Qed.
+
+Lemma Chan_streamnext s o : Lin s -> Chan s -> is_running s = true -> Chan (step s (StreamNext o)).
+Proof.
+  intros L CH Hr. unfold step. destruct (getop s o) as [c|] eqn:Hc; [|exact CH]. destruct (o_status c) eqn:Hst; try exact CH.
+  destruct (CH) as [C1 C2].
+  assert (Nq : ~ In o (opq s)). { intros Hin. destruct (l_q s L o Hin) as (c' & Hc' & _ & _ & _ & _ & Q & _). rewrite Hc in Hc'. injection Hc' as <-. unfold qstat in Q. now rewrite Hst in Q. }
+  assert (K : forall (s' : st) g, (forall o', getop s' o' = if Nat.eqb o' o then Some (g c) else getop s o') -> smap s' = smap s -> opq s' = opq s ->
+     (forall x, In x (scrubq s) -> In x (scrubq s')) -> o_chan (g c) = o_chan c -> o_kind (g c) = o_kind c ->
+     (o_status (g c) = SError -> o_chan c = false \/ In (o_mid c) (scrubq s')) -> Chan s').
+  { intros s' g G Es Eq Esq Ech Ek Est. apply (Chan_upd1 s s' o c g CH L Hc G); try (rewrite ?Es, ?Eq; tauto); try assumption.
+    - rewrite Es. intros Hin. rewrite Ech. destruct (C1 _ _ _ Hin Hc) as [A _]. split; [exact A|]. intros E. destruct (Est E) as [F|F]; [congruence|exact F].
+    - unfold is_search. now rewrite Ek. }
+  destruct (o_rx c); cbn [negb].
+  2: { chan_k K Hc. cbn; discriminate. }
+  destruct (nth_error (o_items c) (o_taken c)) as [r|].
+  - destruct (r_kind r); chan_k K Hc.
+    all: cbn; try (rewrite Hst; discriminate).
+    all: destruct (o_kind c) as [| [|] | |]; try destruct (fix7 (fx s)); cbn; try discriminate; rewrite ?Hst; discriminate.
+  - destruct (o_chan c) eqn:Ech; cbn [negb].
+    + destruct (o_tmo c) as [d|].
+      * match goal with |- context [if ?b then _ else _] => destruct b end.
+        -- rewrite Hr. chan_k K Hc.
+           ++ intros x Hx; cbn [scrubq set updop]; apply in_or_app; now left.
+           ++ intros _. right. cbn [scrubq set updop]. apply in_or_app. right. now left.
+        -- chan_k K Hc. cbn; rewrite Hst; discriminate.
+      * chan_k K Hc. cbn; rewrite Hst; discriminate.
+    + chan_k K Hc. 
+Qed.
+
+Lemma Chan_streamfinish s o : Lin s -> Chan s -> Chan (step s (StreamFinish o)).
+Proof.
+  intros L CH. unfold step. destruct (getop s o) as [c|] eqn:Hc; [|exact CH].
+  destruct (CH) as [C1 C2].
+  assert (K : forall (s' : st) g, (forall o', getop s' o' = if Nat.eqb o' o then Some (g c) else getop s o') -> smap s' = smap s -> opq s' = opq s ->
+     (forall x, In x (scrubq s) -> In x (scrubq s')) -> o_chan (g c) = o_chan c -> o_kind (g c) = o_kind c -> o_status (g c) <> SError -> Chan s').
+  { intros s' g G Es Eq Esq Ech Ek Est. apply (Chan_upd1 s s' o c g CH L Hc G); try (rewrite ?Es, ?Eq; tauto); try assumption.
+    - rewrite Es. intros Hin. rewrite Ech. split; [exact (proj1 (C1 _ _ _ Hin Hc))|]. intros E. now elim Est.
+    - rewrite Eq, Ech. intros Hin IS. exact (C2 _ _ Hin Hc IS).
+    - unfold is_search. now rewrite Ek. }
+  destruct (o_status c); try exact CH; try destruct (fix20 (fx s)); destruct (is_running s); chan_k K Hc.
+  all: try (intros x Hx; cbn [scrubq set updop]; apply in_or_app; now left).
+  all: cbn; discriminate.
+Qed.
+
+Lemma Chan_start s k tmo : Lin s -> Chan s -> is_running s = true -> Chan (step s (Start k tmo)).
+Proof.
+  intros L [C1 C2] Hr. unfold step. destruct (next_msgid (last s) (inuse s)) as [mid| |]; try (split; assumption). rewrite Hr.
+  set (onew := mkOp mid k (option_map (Z.add (now s)) tmo) CWait OsEmpty [] 0
+                    (match k with KSearch _ => true | _ => false end) (match k with KSearch _ => true | _ => false end) [] None tmo None).
+  set (n := length (ops s)).
+  set (s' := s <| last := mid |> <| inuse ::= cons mid |> <| ops ::= fun l => l ++ [onew] |> <| opq ::= fun q => q ++ [n] |>).
+  assert (G : forall o, getop s' o = if Nat.ltb o n then getop s o else if Nat.eqb o n then Some onew else None).
+  { intros o. unfold getop, s', n. cbn [ops set]. destruct (Nat.ltb_spec o (length (ops s))); [now rewrite nth_error_app1|].
+    rewrite nth_error_app2 by lia. destruct (Nat.eqb_spec o (length (ops s))) as [->|]; [now rewrite Nat.sub_diag|].
+    destruct (o - length (ops s))%nat as [|[|m]] eqn:E; [lia|reflexivity|reflexivity]. }
+  assert (Hlt : forall o c, getop s o = Some c -> (o < n)%nat) by (intros o c H; unfold n; apply nth_error_Some; unfold getop in H; congruence).
+  split.
+  - intros k0 o c Hin Hg. change (smap s') with (smap s) in Hin. change (scrubq s') with (scrubq s).
+    destruct (l_s s L k0 o Hin) as (c0 & Hc0 & _). rewrite G in Hg. destruct (Nat.ltb_spec o n); [|pose proof (Hlt o c0 Hc0); lia].
+    exact (C1 k0 o c Hin Hg).
+  - intros o c Hin Hg IS. change (In o (opq s ++ [n])) in Hin. rewrite G in Hg. apply in_app_or in Hin as [Hin|[<-|[]]].
+    + destruct (l_q s L o Hin) as (c0 & Hc0 & _). destruct (Nat.ltb_spec o n); [|pose proof (Hlt o c0 Hc0); lia]. exact (C2 o c Hin Hg IS).
+    + destruct (Nat.ltb_spec n n); [lia|]. rewrite Nat.eqb_refl in Hg. injection Hg as <-. unfold is_search, onew in IS. cbn in IS. unfold onew. cbn. destruct k; try contradiction; reflexivity.
+Qed.
+
+(* the two drops a scrub / an abandon performs: which fields of which operation they touch *)
+Lemma getop_two_drops s id o :
+  let s1 := drop_entry (rmap s) id drop_reply s <| rmap ::= aremove id |> in
+  let s2 := drop_entry (smap s1) id close_chan s1 in
+  exists g, getop s2 o = option_map g (getop s o) /\
+    forall c, o_status (g c) = o_status c /\ o_kind (g c) = o_kind c /\ o_mid (g c) = o_mid c /\ (o_chan (g c) = o_chan c \/ In (id, o) (smap s)).
+Proof.
+  cbv zeta. rewrite getop_drop_entry.
+  assert (Es : smap (drop_entry (rmap s) id drop_reply s <| rmap ::= aremove id |>) = smap s) by (unfold drop_entry; destruct (alookup id (rmap s)); reflexivity).
+  rewrite Es. change (getop (drop_entry (rmap s) id drop_reply s <| rmap ::= aremove id |>) o) with (getop (drop_entry (rmap s) id drop_reply s) o).
+  rewrite getop_drop_entry.
+  assert (D : forall c, o_status (drop_reply c) = o_status c /\ o_kind (drop_reply c) = o_kind c /\ o_mid (drop_reply c) = o_mid c /\ o_chan (drop_reply c) = o_chan c)
+    by (intros c; unfold drop_reply; destruct (o_reply c); repeat split).
+  destruct (alookup id (smap s)) as [os|] eqn:Eos; [destruct (Nat.eqb_spec o os) as [<-|]|];
+  (destruct (alookup id (rmap s)) as [orr|]; [destruct (Nat.eqb o orr)|]).
+  all: try (exists (fun c => close_chan (drop_reply c)); split; [now destruct (getop s o)|intros c; destruct (D c) as (d1 & d2 & d3 & d4); repeat split; try assumption; right; now apply alookup_In]).
+  all: try (exists close_chan; split; [reflexivity|intros c; repeat split; right; now apply alookup_In]).
+  all: try (exists drop_reply; split; [reflexivity|intros c; destruct (D c) as (d1 & d2 & d3 & d4); repeat split; try assumption; now left]).
+  all: exists (fun c => c); (split; [now destruct (getop s o)|intros c; repeat split; now left]).
+Qed.
+
+Lemma Chan_scrub s : Lin s -> Chan s -> Chan (step s DrvScrub).
+Proof.
+  intros L CH. unfold step. destruct (is_running s); cbn [negb]; [|exact CH]. destruct (scrubq s) as [|id q] eqn:Q; [exact CH|]. destruct CH as [C1 C2]. rewrite Q in C1.
+  set (s1 := drop_entry (rmap s) id drop_reply s <| rmap ::= aremove id |>).
+  set (s2 := drop_entry (smap s1) id close_chan s1).
+  assert (Sm : smap s2 = smap s) by (unfold s2, s1, drop_entry; destruct (alookup id (rmap s)); de_solve).
+  assert (Oq : opq s2 = opq s) by (unfold s2, s1, drop_entry; destruct (alookup id (rmap s)); de_solve).
+  assert (G : forall o, exists g, getop s2 o = option_map g (getop s o) /\
+    forall c, o_status (g c) = o_status c /\ o_kind (g c) = o_kind c /\ o_mid (g c) = o_mid c /\ (o_chan (g c) = o_chan c \/ In (id, o) (smap s)))
+    by (intros o; exact (getop_two_drops s id o)).
+  clearbody s2. clear s1.
+  split.
+  - intros k o c'. cbn [smap scrubq set]. rewrite Sm. intros Hin Hg. apply In_arem in Hin as [Hk Hin].
+    change (getop s2 o = Some c') in Hg. destruct (G o) as (g & Gc & Gp). rewrite Gc in Hg. destruct (l_s s L k o Hin) as (c & Hc & M & _). rewrite Hc in Hg. injection Hg as <-.
+    destruct (Gp c) as (g1 & g2 & g3 & g4). destruct (C1 k o c Hin Hc) as [A B]. split.
+    + destruct g4 as [g4|g4]; [congruence|]. exfalso. destruct (l_s s L id o g4) as (c2 & Hc2 & M2 & _). congruence.
+    + rewrite g1. intros E. specialize (B E). destruct B as [B|B]; [congruence|exact B].
+  - intros o c'. cbn [opq set]. rewrite Oq. intros Hin Hg IS. change (getop s2 o = Some c') in Hg. destruct (G o) as (g & Gc & Gp). rewrite Gc in Hg.
+    destruct (l_q s L o Hin) as (c & Hc & _ & _ & Ns & _). rewrite Hc in Hg. injection Hg as <-. destruct (Gp c) as (g1 & g2 & g3 & g4).
+    destruct g4 as [g4|g4]; [|now elim (Ns id)]. rewrite g4. apply (C2 o c Hin Hc). unfold is_search in *. now rewrite <- g2.
+Qed.
+
+Lemma Chan_end how s : Chan (end_driver how s).
+Proof. unfold end_driver. split; cbn [smap opq set]; intros; contradiction. Qed.
+
+Lemma Chan_resp s : Lin s -> Chan s -> fix8 (fx s) = true -> Chan (step s DrvResp).
+Proof.
+  intros L CH F8. unfold step. destruct (is_running s) eqn:Hr; cbn [negb]; [|exact CH]. destruct (win s) as [|r w]; [exact CH|].
+  destruct (alookup (r_mid r) (smap s)) as [o|] eqn:Es.
+  - pose proof (alookup_In _ _ _ Es) as Hin. destruct (l_s s L _ _ Hin) as (c & Hc & M & R & W & ND & IS).
+    assert (Hnq : ~ In o (opq s)). { intros H. destruct (l_q s L o H) as (c' & _ & _ & _ & Ns & _). exact (Ns _ Hin). }
+    destruct (proj1 CH _ _ _ Hin Hc) as [Cc Ce].
+    rewrite Hc, F8.
+    destruct (r_kind r) eqn:Ek; [| | | |destruct (fix5 (fx s)); [apply (Chan_same s); try reflexivity; exact CH|apply Chan_end]].
+    all: destruct (o_rx c) eqn:Erx; cbn [negb].
+    7: apply (Chan_upd1 s _ o c (fun c0 => close_chan (c0 <| o_items ::= fun l => l ++ [r] |>)) CH L Hc).
+    1,3,5: apply (Chan_upd1 s _ o c (fun c0 => c0 <| o_items ::= fun l => l ++ [r] |>) CH L Hc).
+    all: try apply (Chan_upd1 s _ o c close_chan CH L Hc).
+    all: try (intros o'; unfold getop, updop; cbn [ops set]; rewrite ?nth_upd; unfold getop in Hc; destruct (Nat.eqb_spec o' o) as [->|]; [rewrite Hc; cbn [option_map]; reflexivity|reflexivity]).
+    all: try (intros k o'; cbn [smap set updop]; try rewrite In_arem; tauto).
+    all: try (intros o'; cbn [opq set updop]; tauto).
+    all: try (intros x; cbn [scrubq set updop]; tauto).
+    all: try (cbn [opq set updop]; intros Hq; contradiction).
+    all: try (cbn [is_search o_kind set close_chan]; unfold is_search; cbn; tauto).
+    all: cbn [smap scrubq set updop]; try rewrite In_arem; intros Hs.
+    all: try (exfalso; destruct Hs as [Hs _]; apply Hs; exact M).
+    all: cbn; rewrite M; split; [exact Cc|exact Ce].
+  - destruct (alookup (r_mid r) (rmap s)) as [o|] eqn:Er.
+    + pose proof (alookup_In _ _ _ Er) as Hin. destruct (l_r s L _ _ Hin) as (c & Hc & M & R & W & NS).
+      assert (Hns : forall k, ~ In (k, o) (smap s)). { intros k H. destruct (l_s s L k o H) as (c' & Hc' & _ & _ & _ & _ & IS). rewrite Hc in Hc'. injection Hc' as <-. contradiction. }
+      destruct (fill_reply_core (Some r) c) as (f1 & f2 & f3 & f4 & f5).
+      match goal with |- Chan ?s' => apply (Chan_upd1 s s' o c (fill_reply (Some r)) CH L Hc) end.
+      * intros o'. unfold getop, updop. cbn [ops set]. rewrite nth_upd. unfold getop in Hc. destruct (Nat.eqb_spec o' o) as [->|]; [now rewrite Hc|reflexivity].
+      * intros k o'. cbn [smap set updop]. tauto.
+      * intros o'. cbn [opq set updop]. tauto.
+      * intros x. cbn [scrubq set updop]. tauto.
+      * cbn [smap set updop]. intros H. now elim (Hns _ H).
+      * intros _ IS. contradiction.
+      * unfold is_search. now rewrite f2.
+    + apply (Chan_same s); try reflexivity. exact CH.
+Qed.
+
+Lemma fill_reply_chan p c : o_chan (fill_reply p c) = o_chan c.
+Proof. unfold fill_reply. destruct (o_reply c), (waiting c); reflexivity. Qed.
+Lemma Chan_sub s s' : Chan s -> ops s' = ops s -> (forall o, In o (opq s') -> In o (opq s)) -> smap s' = smap s -> scrubq s' = scrubq s -> Chan s'.
+Proof. intros [C1 C2] Eo Eq Es Esq. unfold Chan, getop. rewrite Eo, Es, Esq. split; [assumption|]. intros o c Hin. apply C2. now apply Eq. Qed.
+
+Lemma Chan_op s : Lin s -> Chan s -> NoDup (map o_mid (ops s)) -> fix15 (fx s) = true -> fix16 (fx s) = true -> Chan (step s DrvOp).
+Proof.
+  intros L CH Hnd F15 F16. unfold step. destruct (is_running s) eqn:Hr; cbn [negb]; [|exact CH]. destruct (opq s) as [|o q] eqn:Eq; [exact CH|].
+  assert (Ho : In o (opq s)) by (rewrite Eq; now left).
+  assert (Hq : forall o', In o' q -> In o' (opq s)) by (intros o' H; rewrite Eq; now right).
+  assert (Hnq : ~ In o q). { pose proof (l_nodup s L) as N. rewrite Eq in N. now apply NoDup_cons_iff in N. }
+  destruct (l_q s L o Ho) as (c & Hc & R & Nr & Ns & It & Qs & Wq). rewrite Hc, F15, F16. cbn [andb].
+  destruct CH as [C1 C2]. assert (CH : Chan s) by (split; assumption).
+  assert (Us : forall o', ~ In (o_mid c, o') (smap s)).
+  { intros o' H. destruct (l_s s L _ _ H) as (c2 & Hc2 & M2 & _). assert (o' = o) by (eapply mids_unique; eassumption). subst o'. exact (Ns _ H). }
+  assert (Ur : forall o', ~ In (o_mid c, o') (rmap s)).
+  { intros o' H. destruct (l_r s L _ _ H) as (c2 & Hc2 & M2 & _). assert (o' = o) by (eapply mids_unique; eassumption). subst o'. exact (Nr _ H). }
+  assert (Nkr : alookup (o_mid c) (rmap s) = None). { destruct (alookup (o_mid c) (rmap s)) eqn:E; [|reflexivity]. apply alookup_In in E. now elim (Ur n). }
+  assert (Nks : alookup (o_mid c) (smap s) = None). { destruct (alookup (o_mid c) (smap s)) eqn:E; [|reflexivity]. apply alookup_In in E. now elim (Us n). }
+  destruct (o_kind c) eqn:Ek.
+  - (* KSingle *) destruct (waiting c); cbn [negb].
+    + unfold drop_entry. cbn [rmap set]. rewrite Nkr. apply (Chan_sub s); try reflexivity; [exact CH|exact Hq].
+    + match goal with |- Chan ?s' => apply (Chan_upd1 s s' o c drop_reply CH L Hc) end.
+      * intros o'. unfold getop, updop. cbn [ops set]. rewrite nth_upd. unfold getop in Hc. destruct (Nat.eqb_spec o' o) as [->|]; [now rewrite Hc|reflexivity].
+      * intros k o'. cbn [smap set updop]. tauto.
+      * exact Hq.
+      * intros x. cbn [scrubq set updop]. tauto.
+      * cbn [smap set updop]. intros H. now elim (Ns _ H).
+      * intros H. now elim Hnq.
+      * unfold is_search, drop_reply. destruct (o_reply c); cbn; tauto.
+  - (* KSearch *) unfold drop_entry. cbn [smap set]. rewrite Nks.
+    assert (ISc : is_search c) by (unfold is_search; now rewrite Ek).
+    assert (Cc : o_chan c = true) by (exact (C2 o c Ho Hc ISc)).
+    destruct (fill_reply_core None c) as (f1 & f2 & f3 & f4 & f5).
+    assert (G1 : forall (s0 : st) o', ops s0 = ops s -> getop (updop o (fill_reply None) s0) o' = if Nat.eqb o' o then Some (fill_reply None c) else getop s o').
+    { intros s0 o' E. unfold getop, updop. cbn [ops set]. rewrite E, nth_upd. unfold getop in Hc. destruct (Nat.eqb_spec o' o) as [->|]; [now rewrite Hc|reflexivity]. }
+    destruct (waiting c) eqn:Ew; cbn [negb].
+    + split.
+      * intros k o' c'. cbn [smap scrubq set updop]. intros Hin Hg. rewrite G1 in Hg by reflexivity. apply In_ainsert in Hin as [Hin|Hin].
+        -- injection Hin as -> ->. rewrite Nat.eqb_refl in Hg. injection Hg as <-. rewrite fill_reply_chan, f3. split; [exact Cc|]. unfold waiting in Ew. destruct (o_status c); discriminate.
+        -- destruct (Nat.eqb_spec o' o) as [->|]; [now elim (Ns _ Hin)|]. exact (C1 k o' c' Hin Hg).
+      * intros o' c'. cbn [opq set updop]. intros Hin Hg. rewrite G1 in Hg by reflexivity. destruct (Nat.eqb_spec o' o) as [->|]; [now elim Hnq|]. exact (C2 o' c' (Hq _ Hin) Hg).
+    + assert (G2 : forall (s0 : st) o', ops s0 = ops s -> getop (updop o close_chan (updop o (fill_reply None) s0)) o' = if Nat.eqb o' o then Some (close_chan (fill_reply None c)) else getop s o').
+      { intros s0 o' E. unfold getop, updop. cbn [ops set]. rewrite E, !nth_upd. unfold getop in Hc. destruct (Nat.eqb_spec o' o) as [->|]; [now rewrite Hc|reflexivity]. }
+      split.
+      * intros k o' c'. cbn [smap scrubq set updop]. intros Hin Hg. apply In_arem in Hin as [Hk Hin]. apply In_ainsert in Hin as [Hin|Hin]; [injection Hin; intros; contradiction|].
+        change (getop (updop o close_chan (updop o (fill_reply None) (s <| opq := q |> <| wout ::= fun w => w ++ [(o_mid c, KSearch adapted)] |> <| smap ::= ainsert (o_mid c) o |>))) o' = Some c') in Hg.
+        rewrite G2 in Hg by reflexivity. destruct (Nat.eqb_spec o' o) as [->|]; [now elim (Ns _ Hin)|]. exact (C1 k o' c' Hin Hg).
+      * intros o' c'. cbn [opq set updop]. intros Hin Hg.
+        change (getop (updop o close_chan (updop o (fill_reply None) (s <| opq := q |> <| wout ::= fun w => w ++ [(o_mid c, KSearch adapted)] |> <| smap ::= ainsert (o_mid c) o |>))) o' = Some c') in Hg.
+        rewrite G2 in Hg by reflexivity. destruct (Nat.eqb_spec o' o) as [->|]; [now elim Hnq|]. exact (C2 o' c' (Hq _ Hin) Hg).
+  - (* KAbandon *) rename target into t.
+    set (s0 := s <| opq := q |> <| wout ::= fun w => w ++ [(o_mid c, KAbandon t)] |>).
+    set (s1 := drop_entry (rmap s0) t drop_reply s0 <| rmap ::= aremove t |>).
+    set (s2 := drop_entry (smap s1) t close_chan s1).
+    assert (G : forall o', exists g, getop s2 o' = option_map g (getop s o') /\
+      forall c0, o_status (g c0) = o_status c0 /\ o_kind (g c0) = o_kind c0 /\ o_mid (g c0) = o_mid c0 /\ (o_chan (g c0) = o_chan c0 \/ In (t, o') (smap s)))
+      by (intros o'; exact (getop_two_drops s0 t o')).
+    assert (Sm : smap s2 = smap s) by (unfold s2, s1, s0, drop_entry; cbn [rmap smap set]; destruct (alookup t (rmap s)); de_solve).
+    assert (Sq : scrubq s2 = scrubq s) by (unfold s2, s1, s0, drop_entry; cbn [rmap smap set]; destruct (alookup t (rmap s)); de_solve).
+    assert (Oq : opq s2 = q) by (unfold s2, s1, s0, drop_entry; cbn [rmap smap set]; destruct (alookup t (rmap s)); de_solve).
+    assert (Fin : Chan (updop o (fill_reply None) (s2 <| smap ::= aremove t |>))).
+    { clearbody s2. clear s1 s0. split.
+      - intros k o' c'. cbn [smap scrubq set updop]. rewrite Sm, Sq. intros Hin Hg. apply In_arem in Hin as [Hk Hin].
+        destruct (Nat.eq_dec o' o) as [->|Hne]; [now elim (Ns _ Hin)|].
+        change (getop (updop o (fill_reply None) s2) o' = Some c') in Hg. rewrite getop_updop_ne in Hg by assumption.
+        destruct (G o') as (g & Gc & Gp). rewrite Gc in Hg. destruct (l_s s L k o' Hin) as (c0 & Hc0 & M & _). rewrite Hc0 in Hg. injection Hg as <-.
+        destruct (Gp c0) as (g1 & g2 & g3 & g4). destruct (C1 k o' c0 Hin Hc0) as [A B]. split.
+        + destruct g4 as [g4|g4]; [congruence|]. exfalso. destruct (l_s s L t o' g4) as (c2 & Hc2 & M2 & _). congruence.
+        + rewrite g1. exact B.
+      - intros o' c'. cbn [opq set updop]. rewrite Oq. intros Hin Hg IS.
+        destruct (Nat.eq_dec o' o) as [->|Hne]; [now elim Hnq|].
+        change (getop (updop o (fill_reply None) s2) o' = Some c') in Hg. rewrite getop_updop_ne in Hg by assumption.
+        destruct (G o') as (g & Gc & Gp). rewrite Gc in Hg. destruct (l_q s L o' (Hq _ Hin)) as (c0 & Hc0 & _ & _ & Ns0 & _). rewrite Hc0 in Hg. injection Hg as <-.
+        destruct (Gp c0) as (g1 & g2 & g3 & g4). destruct g4 as [g4|g4]; [|now elim (Ns0 t)]. rewrite g4. apply (C2 o' c0 (Hq _ Hin) Hc0). unfold is_search in *. now rewrite <- g2. }
+    destruct (fix9 (fx s) && abandon_hit s0 t); (eapply Chan_sub; [exact Fin|reflexivity|intros o'; cbn [opq set updop]; tauto|reflexivity|reflexivity]).
+  - (* KUnbind *) apply Chan_end.
+Qed.
+
+Theorem step_Chan s e : wf_ev e -> Lin s -> Chan s -> fx s = repaired -> is_running s = true -> NoDup (map o_mid (ops s)) -> Chan (step s e).
+Proof.
+  intros We L CH F Hr Hnd. destruct e.
+  - now apply Chan_start.
+  - apply Chan_op; try assumption; now rewrite F.
+  - now apply Chan_scrub.
+  - apply Chan_resp; try assumption; now rewrite F.
+  - unfold step. rewrite Hr. apply Chan_end.
+  - apply (Chan_same s); try reflexivity. exact CH.
+  - now apply Chan_clipoll.
+  - now apply Chan_streamnext.
+  - now apply Chan_streamfinish.
+  - apply (Chan_same s); try reflexivity. exact CH.
+Qed.
+
+Theorem reachable_Lin_Chan evs : Forall wf_ev evs -> is_running (run repaired evs) = true -> NoDup (map o_mid (ops (run repaired evs))) ->
+  Lin (run repaired evs) /\ Chan (run repaired evs).
+Proof.
+  induction evs as [|e evs IH] using rev_ind; intros Hwf Hr Hnd; [split; [apply Lin_init|apply Chan_init]|].
   apply Forall_app in Hwf as [Hwf He]. apply Forall_inv in He.
   rewrite run_snoc in *. pose proof (reachable_keyed repaired evs) as K.
   assert (F : fx (run repaired evs) = repaired).
   { clear. induction evs as [|e evs IH] using rev_ind; [reflexivity|]. now rewrite run_snoc, fx_step. }
-  apply step_Lin; try assumption. apply IH; [assumption|eapply running_back; eassumption|].
-  eapply oext_mids_nodup; [apply (step_sext _ e K)|exact Hnd].
+  assert (Hnd0 : NoDup (map o_mid (ops (run repaired evs)))) by (eapply oext_mids_nodup; [apply (step_sext _ e K)|exact Hnd]).
+  pose proof (running_back _ e Hr) as Hr0.
+  destruct (IH Hwf Hr0 Hnd0) as [L CH].
+  split; [apply step_Lin; assumption|apply step_Chan; assumption].
 Qed.
+Theorem reachable_Lin evs : Forall wf_ev evs -> is_running (run repaired evs) = true -> NoDup (map o_mid (ops (run repaired evs))) -> Lin (run repaired evs).
+Proof. intros A B C. exact (proj1 (reachable_Lin_Chan evs A B C)). Qed.
 
 (* C13, every schedule of the repaired model. The hypothesis says that no two operations of the history were given the same message id,
    i.e. the 31-bit id counter did not come round to an id still remembered in the model's op table; discharging it needs the C05 invariant
